@@ -330,6 +330,10 @@ def run(ctx: core.Run):
     ctx.extra["phase_seconds"] = round(time.time() - t0, 1)
     if ctx.tier == "thorough":
         ctx.recheck(["PsdVerif.Props.C03"])
+    # ---- the written-count clause on type-directed payload variants; more writer entry points (deep documents with
+    # re-encoded channels, documents with extra channels edited then saved)
+    __import__("payload_gen").run_c03(ctx)
+    __import__("c03_writers").run(ctx, fx_all)
 
 
 def api_documents(ctx, fx_small):
@@ -445,6 +449,8 @@ def observed_key_evidence():
 def replay(ctx, data):
     inp = data.get("input") or {}
     print("replaying", data.get("signature"), inp.get("scenario"))
+    if inp.get("class"):
+        __import__("payload_gen").replay_c03(inp)
     if inp.get("file"):
         b = unhx(inp["file"])
         a = cc.pbatch([("psd.walk", hx(b))])[0]
@@ -453,6 +459,7 @@ def replay(ctx, data):
         if r[0] == "ok":
             img = [x for x in r[3] if x[2] == "image-data"]
             print("image data:", image_data_problem(b, r[1], img[0][:2]) if img else None)
+            print("image data (row lengths too):", __import__("c03_extra").merged_problem(b, r[1], r[3]))
             print("channel row tables:", channel_rle_problems(b)[:3])
             import c03_extra
             print("layer channels (specification reading):", c03_extra.layer_channel_problems(b, r[1], r[3])[:3])
